@@ -132,7 +132,11 @@ inductive Res (σ : Type) where
 was allocated (`make([]byte, length)`; 0 when the call returned before). -/
 def decodeWith {σ : Type} (c : Cfg) (rd : Nat → σ → Bytes × RErr × σ) (s : σ) : Nat × Res σ :=
   match rd 4 s with
-  | (_, .eof, _) => (0, .eof)                      -- errors.Is(err, io.EOF): end of log
+  | (b1, .eof, s1) =>
+    -- errors.Is(err, io.EOF): the clean end of the log only when NOTHING was read (`nc == 0`);
+    -- bytes together with io.EOF (the group reader at the end of the group) = a record torn inside
+    -- its checksum field: DataCorruptionError "failed to read checksum … (read: nc, wanted: 4)" (F38)
+    if b1 = [] then (0, .eof) else (0, .corrupt s1)
   | (_, .other, s1) => (0, .corrupt s1)            -- "failed to read checksum"
   | (b1, .ok, s1) =>
     match rd 4 s1 with
@@ -191,7 +195,7 @@ theorem decodeWith_msg_inv {σ : Type} (c : Cfg) (rd : Nat → σ → Bytes × R
       c.parse d ≠ none ∧ a = be32Val (pad 4 b2) := by
   unfold decodeWith at h
   split at h
-  · cases h
+  · split at h <;> cases h
   · cases h
   · rename_i b1 s1 h1
     split at h
@@ -221,15 +225,20 @@ theorem decodeWith_msg_inv {σ : Type} (c : Cfg) (rd : Nat → σ → Bytes × R
 /-- where the reader stands after a corrupt result -/
 theorem decodeWith_corrupt_inv {σ : Type} (c : Cfg) (rd : Nat → σ → Bytes × RErr × σ) (s : σ)
     {a : Nat} {r : σ} (h : decodeWith c rd s = (a, .corrupt r)) :
-    (∃ b1, rd 4 s = (b1, .other, r)) ∨
+    (∃ b1, rd 4 s = (b1, .other, r) ∨ (rd 4 s = (b1, .eof, r) ∧ b1 ≠ [])) ∨
     ∃ b1 s1, rd 4 s = (b1, .ok, s1) ∧
       (r = (rd 4 s1).2.2 ∨ ∃ n, r = (rd n (rd 4 s1).2.2).2.2) := by
   unfold decodeWith at h
   split at h
-  · cases h
+  · rename_i b1 s1 h1
+    split at h
+    · cases h
+    · rename_i hne
+      injection h with _ hr; injection hr with hr; subst hr
+      exact Or.inl ⟨b1, Or.inr ⟨h1, hne⟩⟩
   · rename_i b1 s1 h1
     injection h with _ hr; injection hr with hr; subst hr
-    exact Or.inl ⟨b1, h1⟩
+    exact Or.inl ⟨b1, Or.inl h1⟩
   · rename_i b1 s1 h1
     refine Or.inr ⟨b1, s1, h1, ?_⟩
     split at h
@@ -260,6 +269,7 @@ theorem decodeWith_sim {σ τ : Type} (c : Cfg) (rd₁ : Nat → σ → Bytes ×
   rw [hsim 4 s]
   rcases h1 : rd₁ 4 s with ⟨b1, e1, s1⟩
   cases e1 <;> simp only [Res.map]
+  case eof => split <;> simp only [Res.map]
   rw [hsim 4 s1]
   rcases h2 : rd₁ 4 s1 with ⟨b2, e2, s2⟩
   cases e2 <;> simp only [Res.map]
@@ -353,9 +363,20 @@ theorem decodeG_lt (c : Cfg) (g r : GReader) {d : Bytes}
   · rw [h] at hm
     have h' : decodeWith c (read .group) g.flat = ((decodeA c .group g.flat).1, .corrupt r.flat) := by
       rw [← (show decode c .group g.flat = Res.corrupt r.flat from hm)]; rfl
-    rcases decodeWith_corrupt_inv c (read .group) g.flat h' with ⟨b1, h1⟩ | ⟨b1, s1, h1, h2⟩
+    rcases decodeWith_corrupt_inv c (read .group) g.flat h' with ⟨b1, h1 | ⟨h1, hne⟩⟩ | ⟨b1, s1, h1, h2⟩
     · simp [read] at h1
       split at h1 <;> simp at h1
+    · simp only [read] at h1
+      split at h1
+      · cases h1
+      · split at h1
+        · cases h1
+        · injection h1 with e1 e2
+          injection e2 with _ e3
+          rw [← e3]
+          have : 0 < g.flat.length := by
+            rw [e1]; exact List.length_pos_iff.mpr hne
+          simpa using this
     · have l1 := read_ok_lt .group 4 g.flat (by omega) (by rw [h1])
       rw [h1] at l1
       simp only at l1
